@@ -41,6 +41,13 @@ Theorem C03_location_options_select : forall (cfg : config V) first use x,
   use_locations V cfg first = OK use -> (In x use <-> loc_selected V cfg first x).
 Proof. exact (use_locations_spec V). Qed.
 
+(* -d keeps exactly the times on the requested UTC days [d, d + 86400), for every unix time -- also before 1970, where the
+   pinned code truncated towards zero and attached 1969-12-31 12:00 to 1970-01-01 *)
+Theorem C03_date_option_selects_whole_utc_days : forall (cfg : config V) t ds,
+  c_dates cfg = Some ds -> (forall d, In d ds -> d mod 86400 = 0) ->
+  (date_ok V cfg t = true <-> exists d, In d ds /\ d <= t < d + 86400).
+Proof. exact (date_ok_day V). Qed.
+
 (* a range option constrains only when it is given: -latrange alone keeps a station whatever its longitude (the
    pinned code applied -180..180 to the longitude then and silently dropped stations of files using 0..360) *)
 Theorem C03_latrange_alone_selects_by_latitude_only : forall (cfg : config V) first use x a b,
